@@ -417,12 +417,16 @@ package syntax
 //@   ensures @null old(len(data) == 4 && data[0] == 'n' && data[1] == 'u' && data[2] == 'l' && data[3] == 'l') ==> isnil(result)
 
 //@ func syntax.ArrayType.FilterJson property C17
+//@   opt deterministic on
 //@   ensures @null old(len(data) == 4 && data[0] == 'n' && data[1] == 'u' && data[2] == 'l' && data[3] == 'l') ==> result.0 == data && !result.1 && isnil(result.2)
 // fast path: when no element's filter returned a different slice the IDENTICAL input slice is returned
 //@   ensures @fastpath old(s.Dim) == 1 && len(arr) > 0 && (forall j :: 0 <= j && j < len(arr) ==> (len(fn(syntax.Type.FilterJson, s.Elem, arr[j], lookup).0) == len(arr[j]) && (len(arr[j]) == 0 || (base(fn(syntax.Type.FilterJson, s.Elem, arr[j], lookup).0) == base(arr[j]) && off(fn(syntax.Type.FilterJson, s.Elem, arr[j], lookup).0) == off(arr[j]))))) ==> result.0 == data
 //@   loop 1 invariant 0 <= iter && iter <= len(arr) && s.Dim == 1 && s.Elem == old(s.Elem)
 //@   loop 1 invariant base(arr) == atloop(base(arr)) && off(arr) == atloop(off(arr)) && len(arr) == atloop(len(arr))
 //@   loop 2 invariant s.Dim == old(s.Dim) && s.Elem == old(s.Elem)
+// (arrays of arrays: the same rule one level down - one row that was filtered is enough for the rebuilt value to be returned)
+//@   loop 2 invariant 0 <= iter && iter <= len(arr) && base(arr) == atloop(base(arr)) && off(arr) == atloop(off(arr)) && len(arr) == atloop(len(arr))
+//@   loop 2 invariant !different <==> (forall j :: 0 <= j && j < iter ==> (len(fn(syntax.ArrayType.FilterJson, aType, arr[j], lookup).0) == len(arr[j]) && (len(arr[j]) == 0 || (base(fn(syntax.ArrayType.FilterJson, aType, arr[j], lookup).0) == base(arr[j]) && off(fn(syntax.ArrayType.FilterJson, aType, arr[j], lookup).0) == off(arr[j])))))
 //@   loop 1 invariant !different <==> (forall j :: 0 <= j && j < iter ==> (len(fn(syntax.Type.FilterJson, s.Elem, arr[j], lookup).0) == len(arr[j]) && (len(arr[j]) == 0 || (base(fn(syntax.Type.FilterJson, s.Elem, arr[j], lookup).0) == base(arr[j]) && off(fn(syntax.Type.FilterJson, s.Elem, arr[j], lookup).0) == off(arr[j])))))
 // Every key of a rebuilt map object is written through the JSON encoder (jsonenc counts
 // json.Marshal calls; element filters may encode more, never less).
